@@ -65,7 +65,7 @@ class SimSSLContext:
 
 
 class SimSSLSocket:
-    MAX_PENDING = 1 << 17
+    MAX_RECORD = 16384      # plaintext bytes per TLS record
 
     def __init__(self, ctx, sock, server_side, server_hostname, suppress_ragged_eofs=True):
         self.ctx = ctx
@@ -77,6 +77,8 @@ class SimSSLSocket:
         self.obj = ctx.real.wrap_bio(self.incoming, self.outgoing, server_side=server_side,
                                      server_hostname=None if server_side else (server_hostname or None))
         self.pending = bytearray()    # ciphertext not yet accepted by the transport
+        self.retry = None             # plaintext of a record that is in .pending after SSLWantWriteError
+        self.io_tymes = []            # tymes (net.tymth) at which send()/recv() moved plaintext
         self.suppress_ragged_eofs = suppress_ragged_eofs
         self.eof_in = False
         self.handshook = False
@@ -167,27 +169,48 @@ class SimSSLSocket:
         raise ssl.SSLWantReadError(ssl.SSL_ERROR_WANT_READ, "The operation did not complete (read)")
 
     def send(self, data, flags=0):
+        """SSL_write semantics on a non-blocking transport: success (a byte count) is reported only once the whole
+        record has been handed to the transport; until then SSLWantWriteError, and the caller must retry with the
+        same bytes (OpenSSL keeps the half-written record, here .pending, and completes it on the retry).  So no
+        plaintext that was reported as sent is ever still in user space when the socket is closed."""
         self.calls["send"] += 1
         if self.sock.state == "closed" or self.obj is None:
             raise OSError(errno.EBADF, "Bad file descriptor")
         self._tls_fault("send")
-        if not self._flush() and len(self.pending) > self.MAX_PENDING:
+        if not self._flush():
             self.net.count("tls_want_write_backpressure")
             raise ssl.SSLWantWriteError(ssl.SSL_ERROR_WANT_WRITE, "The operation did not complete (write)")
+        if self.retry is not None:
+            # the record written by the call that raised SSLWantWriteError has now gone out completely
+            chunk, self.retry = self.retry, None
+            if bytes(data[:len(chunk)]) != chunk:
+                raise ssl.SSLError(ssl.SSL_ERROR_SSL, "bad write retry")
+            self.plain_tx.extend(chunk)
+            self._stamp()
+            return len(chunk)
         n = len(data)
         if n == 0:
             return 0
-        k = n
+        k = min(n, self.MAX_RECORD)
         net = self.net
         if net.faults_on and net.rates.get("tls_partial") and net.tape.flag("tls_partial", net.rates["tls_partial"], 16):
-            k = max(1, min(n, [1, 2, 7, 64, 1000, 16384][net.tape.draw("tls_partial_k", 6)]))
+            k = max(1, min(k, [1, 2, 7, 64, 1000, 16384][net.tape.draw("tls_partial_k", 6)]))
             if k < n:
                 net.count("tls_partial_write")
         chunk = bytes(data[:k])
         w = self.obj.write(chunk)
+        if not self._flush():
+            self.retry = chunk[:w]
+            self.net.count("tls_want_write_backpressure")
+            raise ssl.SSLWantWriteError(ssl.SSL_ERROR_WANT_WRITE, "The operation did not complete (write)")
         self.plain_tx.extend(chunk[:w])
-        self._flush()
+        self._stamp()
         return w
+
+    def _stamp(self):
+        tymth = getattr(self.net, "tymth", None)
+        if tymth is not None:
+            self.io_tymes.append(tymth())
 
     def recv(self, buflen=1024, flags=0):
         self.calls["recv"] += 1
@@ -216,6 +239,8 @@ class SimSSLSocket:
                 raise
             self._flush()
             self.plain_rx.extend(data)
+            if data:
+                self._stamp()
             return data
         raise ssl.SSLWantReadError(ssl.SSL_ERROR_WANT_READ, "The operation did not complete (read)")
 
